@@ -311,7 +311,8 @@ def observe(job):
     nf = int(np.sum(~isint))                      # float-typed positions come first
     try:
         reg = Region(maxdepth=depth)
-        dkw = {"depth": depth} if explicit_depth else {}
+        # an insertion depth beyond the region's maxdepth is clamped to maxdepth by the API
+        dkw = {"depth": depth + rng.choice([0, 0, 1, 3])} if explicit_depth else {}
         if nv == 0 and rng.random() < 0.3:
             # the shape is built in two steps with a query in between: a concentric circle of
             # half the radius first (a subset, so the final region is the same circle)
